@@ -3,7 +3,9 @@ package main
 import (
 	"encoding/json"
 	"fmt"
+	udpatypev1 "github.com/cncf/xds/go/udpa/type/v1"
 	v3thrift_proxy "github.com/envoyproxy/go-control-plane/envoy/extensions/filters/network/thrift_proxy/v3"
+	"google.golang.org/protobuf/types/known/structpb"
 	"math"
 	"sort"
 	"strconv"
@@ -436,6 +438,15 @@ type gChain struct {
 	Bucket int    // tokens per fill; -1 = no rate-limit filter
 	// ThriftAfter: the chain carries a Thrift-proxy filter after its connection manager (a Thrift service behind the same port)
 	ThriftAfter bool
+	// Shape: how the HTTP filters of the connection manager look (the bucket is the same in all of them): 0 = the rate-limit
+	// filter alone; 1 = behind two TypedStruct-configured filters of other kinds (the usual Istio shape) and in front of the
+	// router; 2 = the rate limit itself configured as a TypedStruct, behind another TypedStruct filter
+	Shape int
+}
+
+func typedStructFilter(name, url string, fields map[string]*structpb.Value) *v3httppb.HttpFilter {
+	ts := &udpatypev1.TypedStruct{TypeUrl: url, Value: &structpb.Struct{Fields: fields}}
+	return &v3httppb.HttpFilter{Name: name, ConfigType: &v3httppb.HttpFilter_TypedConfig{TypedConfig: mustAny(ts)}}
 }
 
 func thriftProxyFilter() *v3listenerpb.Filter {
@@ -458,8 +469,22 @@ func inboundListener(chains []gChain) *anypb.Any {
 			hcm.RouteSpecifier = &v3httppb.HttpConnectionManager_RouteConfig{RouteConfig: &v3routepb.RouteConfiguration{Name: "inline"}}
 		}
 		if ch.Bucket >= 0 {
-			hcm.HttpFilters = []*v3httppb.HttpFilter{{ConfigType: &v3httppb.HttpFilter_TypedConfig{TypedConfig: mustAny(
-				&ratelimitv3.LocalRateLimit{StatPrefix: "x", TokenBucket: &typedv3.TokenBucket{MaxTokens: 1000, TokensPerFill: wrapperspb.UInt32(uint32(ch.Bucket))}})}}}
+			rl := &v3httppb.HttpFilter{ConfigType: &v3httppb.HttpFilter_TypedConfig{TypedConfig: mustAny(
+				&ratelimitv3.LocalRateLimit{StatPrefix: "x", TokenBucket: &typedv3.TokenBucket{MaxTokens: 1000, TokensPerFill: wrapperspb.UInt32(uint32(ch.Bucket))}})}}
+			mx := typedStructFilter("istio.metadata_exchange", "type.googleapis.com/io.istio.http.peer_metadata.Config", map[string]*structpb.Value{"shared_with_upstream": structpb.NewBoolValue(true)})
+			stats := typedStructFilter("istio.stats", "type.googleapis.com/stats.PluginConfig", map[string]*structpb.Value{})
+			router := &v3httppb.HttpFilter{Name: "envoy.filters.http.router", ConfigType: &v3httppb.HttpFilter_TypedConfig{TypedConfig: &anypb.Any{TypeUrl: "type.googleapis.com/envoy.extensions.filters.http.router.v3.Router"}}}
+			switch ch.Shape {
+			case 1:
+				hcm.HttpFilters = []*v3httppb.HttpFilter{mx, stats, rl, router}
+			case 2:
+				tsrl := typedStructFilter("envoy.filters.http.local_ratelimit", "type.googleapis.com/envoy.extensions.filters.http.local_ratelimit.v3.LocalRateLimit",
+					map[string]*structpb.Value{"stat_prefix": structpb.NewStringValue("x"), "token_bucket": structpb.NewStructValue(&structpb.Struct{Fields: map[string]*structpb.Value{
+						"max_tokens": structpb.NewNumberValue(1000), "tokens_per_fill": structpb.NewNumberValue(float64(ch.Bucket))}})})
+				hcm.HttpFilters = []*v3httppb.HttpFilter{stats, tsrl, router}
+			default:
+				hcm.HttpFilters = []*v3httppb.HttpFilter{rl}
+			}
 		}
 		fc.Filters = []*v3listenerpb.Filter{{ConfigType: &v3listenerpb.Filter_TypedConfig{TypedConfig: mustAny(hcm)}}}
 		if ch.Kind == "thrift" {
@@ -539,6 +564,7 @@ func runC18(c *ctx) {
 					ch := gChain{Port: ports[pi], Kind: []string{"rds", "inline", "rds", "none"}[r.intn(4)]}
 					ports = append(ports[:pi], ports[pi+1:]...) // distinct chain ports
 					ch.Bucket = []int{-1, 0, 5, 100, 100000}[r.intn(5)]
+					ch.Shape = r2.intn(3)
 					if r.chance(12) {
 						ch.Kind = "thrift" // the inbound side of a Thrift service: no rate limit is configured on such a chain
 						ch.Bucket = -1
